@@ -216,7 +216,7 @@ theorem getField_pos {s : State} (hI : Inv s) {r : FRef} {h : Nat} (hr : getFiel
     split at hr
     · cases hr
       refine ⟨d, fn, g', ?_, he, ho, hl⟩
-      simp only [refPos, (ensureValid_ok hv).1, Option.bind_some, hpos]
+      simp only [refPos, (ensureValid_ok hv).1, Option.bind_some, (ensureValid_ok hv).2.1, Bool.false_eq_true, if_false, hpos]
     · cases hr
   | byName d' fn' c =>
     simp only [getField] at hr
